@@ -47,12 +47,12 @@ Section BgzfProofs.
   Definition flush_out (st : bw) : list byte :=
     if Nat.eqb (staged st) 0 then [] else frame_at frames (nfl st).
   Definition flush_next (st : bw) : bw :=
-    if Nat.eqb (staged st) 0 then st else mkBw 0 (S (nfl st)) (alive st).
+    if Nat.eqb (staged st) 0 then st else mkBw 0 (S (nfl st)) (alive st) false.
 
   Lemma bw_flush_block_post : forall st s,
     match bw_flush_block frames st s with
-    | (Ok, st', s') => st' = mkBw 0 (S (nfl st)) (alive st) /\ ok_post s s' (frame_at frames (nfl st))
-    | (Err e, st', s') => st' = st /\ err_post s s' e (frame_at frames (nfl st)) /\ e <> e_interrupted
+    | (Ok, st', s') => st' = mkBw 0 (S (nfl st)) (alive st) false /\ ok_post s s' (frame_at frames (nfl st))
+    | (Err e, st', s') => err_post s s' e (frame_at frames (nfl st)) /\ e <> e_interrupted
     | (OutOfFuel, _, _) => False
     end.
   Proof.
@@ -60,7 +60,7 @@ Section BgzfProofs.
     pose proof (emit_frame_good (frame_at frames (nfl st)) s) as H.
     destruct (emit_frame (frame_at frames (nfl st)) s) as [[|e|] s1] eqn:Ee.
     - split; [reflexivity|exact H].
-    - split; [reflexivity|]. split; [exact H|].
+    - split; [exact H|].
       unfold emit_frame in Ee. eapply run_writes_err_ni. exact Ee.
     - exact H.
   Qed.
@@ -68,7 +68,7 @@ Section BgzfProofs.
   Lemma bw_flush_post : forall st s,
     match bw_flush frames st s with
     | (Ok, st', s') => st' = flush_next st /\ ok_post s s' (flush_out st)
-    | (Err e, st', s') => st' = st /\ err_post s s' e (flush_out st) /\ e <> e_interrupted
+    | (Err e, st', s') => err_post s s' e (flush_out st) /\ e <> e_interrupted
     | (OutOfFuel, _, _) => False
     end.
   Proof.
@@ -86,13 +86,13 @@ Section BgzfProofs.
   (* one write() call on the BGZF writer, entered with room in the staging buffer *)
   Lemma bw_write_post : forall n st s, 0 < n -> binv st ->
     let amt := Nat.min (maxbuf - staged st) n in
-    let st1 := mkBw (staged st + amt) (nfl st) (alive st) in
+    let st1 := mkBw (staged st + amt) (nfl st) (alive st) (fin st) in
     0 < amt /\
     match bw_write maxbuf frames n st s with
     | (WOk k, st', s') =>
         k = amt /\
         if Nat.ltb (staged st1) maxbuf then st' = st1 /\ s' = s
-        else st' = mkBw 0 (S (nfl st)) (alive st) /\ ok_post s s' (frame_at frames (nfl st))
+        else st' = mkBw 0 (S (nfl st)) (alive st) false /\ ok_post s s' (frame_at frames (nfl st))
     | (WErr e, st', s') =>
         Nat.ltb (staged st1) maxbuf = false /\
         err_post s s' e (frame_at frames (nfl st)) /\ e <> e_interrupted
@@ -111,7 +111,7 @@ Section BgzfProofs.
       rewrite Hnz in Hf. cbn [nfl alive st1] in Hf.
       destruct (bw_flush frames st1 s) as [[[|e|] st2] s2].
       + destruct Hf as [Hst Hok]. split; [reflexivity|]. split; assumption.
-      + destruct Hf as [_ [Herr Hne]]. split; [reflexivity|]. split; assumption.
+      + destruct Hf as [Herr Hne]. split; [reflexivity|]. split; assumption.
       + contradiction.
   Qed.
 
@@ -124,10 +124,10 @@ Section BgzfProofs.
         | O => ([], st)
         | S f =>
             let amt := Nat.min (maxbuf - staged st) n in
-            let st1 := mkBw (staged st + amt) (nfl st) (alive st) in
+            let st1 := mkBw (staged st + amt) (nfl st) (alive st) (fin st) in
             if Nat.ltb (staged st1) maxbuf then wa_spec f (n - amt) st1
             else
-              let (o, st3) := wa_spec f (n - amt) (mkBw 0 (S (nfl st)) (alive st)) in
+              let (o, st3) := wa_spec f (n - amt) (mkBw 0 (S (nfl st)) (alive st) false) in
               (frame_at frames (nfl st) ++ o, st3)
         end
     end.
@@ -155,11 +155,11 @@ Section BgzfProofs.
         * destruct Hw as [Hst Hs]. subst st1 s1.
           apply IH; [lia|]. unfold binv. cbn [staged]. apply Nat.ltb_lt. exact Elt.
         * destruct Hw as [Hst Hok]. subst st1.
-          assert (Hinv2 : binv (mkBw 0 (S (nfl st)) (alive st))) by exact maxbuf_pos.
+          assert (Hinv2 : binv (mkBw 0 (S (nfl st)) (alive st) false)) by exact maxbuf_pos.
           assert (Hlt2 : S n' - S a < f) by lia.
-          specialize (IH (S n' - S a) (mkBw 0 (S (nfl st)) (alive st)) s1 Hlt2 Hinv2).
-          destruct (wa_spec f (S n' - S a) (mkBw 0 (S (nfl st)) (alive st))) as [o st3].
-          destruct (bw_write_all_fuel maxbuf frames f (S n' - S a) (mkBw 0 (S (nfl st)) (alive st)) s1)
+          specialize (IH (S n' - S a) (mkBw 0 (S (nfl st)) (alive st) false) s1 Hlt2 Hinv2).
+          destruct (wa_spec f (S n' - S a) (mkBw 0 (S (nfl st)) (alive st) false)) as [o st3].
+          destruct (bw_write_all_fuel maxbuf frames f (S n' - S a) (mkBw 0 (S (nfl st)) (alive st) false) s1)
             as [[[|e|] st4] s4]; cbn [fst snd] in *.
           -- destruct IH as [H1 [H2 H3]]. split; [exact H1|]. split; [exact H2|].
              eapply ok_ok; eassumption.
@@ -168,28 +168,38 @@ Section BgzfProofs.
       + destruct Hw as [Elt [Herr Hne]]. cbn [staged] in Elt.
         apply N.eqb_neq in Hne. rewrite Hne.
         cbn [staged]. rewrite Elt.
-        destruct (wa_spec f (S n' - amt) (mkBw 0 (S (nfl st)) (alive st))) as [o st3].
+        destruct (wa_spec f (S n' - amt) (mkBw 0 (S (nfl st)) (alive st) false)) as [o st3].
         cbn [fst]. apply err_weaken. exact Herr.
   Qed.
 
   Definition wa_out (n : nat) (st : bw) : list byte := fst (wa_spec (S n) n st).
   Definition wa_next (n : nat) (st : bw) : bw := snd (wa_spec (S n) n st).
 
+  (* try_finish writes the EOF block unless one already terminates the stream *)
+  Definition tf_out (st : bw) : list byte :=
+    flush_out st ++ (if fin (flush_next st) then [] else BGZF_EOF).
+  Definition tf_next (st : bw) : bw :=
+    mkBw (staged (flush_next st)) (nfl (flush_next st)) (alive (flush_next st)) true.
+
   Lemma bw_try_finish_post : forall st s,
     match bw_try_finish frames st s with
-    | (Ok, st', s') => st' = flush_next st /\ ok_post s s' (flush_out st ++ BGZF_EOF)
-    | (Err e, _, s') => err_post s s' e (flush_out st ++ BGZF_EOF)
+    | (Ok, st', s') => st' = tf_next st /\ ok_post s s' (tf_out st)
+    | (Err e, _, s') => err_post s s' e (tf_out st)
     | (OutOfFuel, _, _) => False
     end.
   Proof.
-    intros st s. unfold bw_try_finish. pose proof (bw_flush_post st s) as Hf.
+    intros st s. unfold bw_try_finish, tf_out, tf_next. pose proof (bw_flush_post st s) as Hf.
     destruct (bw_flush frames st s) as [[[|e|] st1] s1].
-    - destruct Hf as [Hst Hok]. pose proof (write_all_good BGZF_EOF s1) as Hw.
-      destruct (write_all BGZF_EOF s1) as [[|e|] s2].
-      + split; [exact Hst|]. eapply ok_ok; eassumption.
-      + eapply ok_err; eassumption.
-      + exact Hw.
-    - destruct Hf as [_ [Herr _]]. apply err_weaken. exact Herr.
+    - destruct Hf as [Hst Hok]. subst st1.
+      destruct (fin (flush_next st)) eqn:Ef.
+      + rewrite app_nil_r. split; [|exact Hok].
+        destruct (flush_next st) as [a b c d]. cbn in *. subst d. reflexivity.
+      + pose proof (write_all_good BGZF_EOF s1) as Hw.
+        destruct (write_all BGZF_EOF s1) as [[|e|] s2].
+        * split; [reflexivity|]. eapply ok_ok; eassumption.
+        * eapply ok_err; eassumption.
+        * exact Hw.
+    - destruct Hf as [Herr _]. apply err_weaken. exact Herr.
     - exact Hf.
   Qed.
 
@@ -203,12 +213,12 @@ Section BgzfProofs.
         mkSpec (fun st => if alive st then flush_out st else [])
                (fun st => if alive st then flush_next st else st)
     | BTryFinish =>
-        mkSpec (fun st => if alive st then flush_out st ++ BGZF_EOF else [])
-               (fun st => if alive st then flush_next st else st)
+        mkSpec (fun st => if alive st then tf_out st else [])
+               (fun st => if alive st then tf_next st else st)
     | BFinish =>
-        mkSpec (fun st => if alive st then flush_out st ++ BGZF_EOF else [])
+        mkSpec (fun st => if alive st then tf_out st else [])
                (fun st => if alive st
-                          then mkBw (staged (flush_next st)) (nfl (flush_next st)) false
+                          then mkBw (staged (tf_next st)) (nfl (tf_next st)) false (fin (tf_next st))
                           else st)
     end.
 
@@ -228,13 +238,13 @@ Section BgzfProofs.
       + pose proof (bw_try_finish_post st s) as H.
         destruct (bw_try_finish frames st s) as [[[|e|] st1] s1].
         * destruct H as [H1 H2]. split; [exact H1|]. split; [|exact H2].
-          rewrite H1. apply flush_next_inv. exact Hinv.
+          rewrite H1. exact (flush_next_inv st Hinv).
         * exact H.
         * exact H.
       + unfold bw_finish. pose proof (bw_try_finish_post st s) as H.
         destruct (bw_try_finish frames st s) as [[[|e|] st1] s1].
         * destruct H as [H1 H2]. rewrite H1. split; [reflexivity|]. split; [|exact H2].
-          pose proof (flush_next_inv st Hinv) as Hi. exact Hi.
+          exact (flush_next_inv st Hinv).
         * exact H.
         * exact H.
     - destruct o; cbn [bop_spec sp_out sp_next]; rewrite Ea;
@@ -303,7 +313,7 @@ Section BgzfProofs.
 
   (* Drop of a writer that still owns its sink: the staged block (if any) then the EOF block *)
   Definition drop_out (st : bw) : list byte :=
-    if alive st then flush_out st ++ BGZF_EOF else [].
+    if alive st then tf_out st else [].
 
   Theorem bw_drop_emits : forall st s,
     no_fail (sscript s) ->
@@ -363,30 +373,45 @@ Section BgzfProofs.
     cbn [snd]. rewrite Hbi. cbn [sbytes ideal_sink app]. exact Hb.
   Qed.
 
-  (* a life that ends with the consuming finish(): Drop has nothing left to do, so "every call
-     returned Ok" does mean that the sink holds exactly the fault-free file *)
+  (* a life whose last call is try_finish() or finish(self): Drop has nothing left to write, so
+     "every call returned Ok" does mean that the sink holds exactly the fault-free file *)
   Lemma ideal_state_app : forall (sps1 sps2 : list (spec bw)) st,
     ideal_state (sps1 ++ sps2) st = ideal_state sps2 (ideal_state sps1 st).
   Proof. induction sps1 as [|sp t IH]; intros sps2 st; cbn; [reflexivity|apply IH]. Qed.
 
-  Theorem bw_finish_life_complete : forall ops s rs s',
-    bw_run maxbuf frames (ops ++ [BFinish]) s = (rs, s') -> Forall (fun r => r = Ok) rs ->
-    sbytes s' = sbytes s ++ bw_ideal_out (ops ++ [BFinish]).
+  Lemma flush_next_staged : forall st, staged (flush_next st) = 0.
   Proof.
-    intros ops s rs s' Hrun Hall. unfold bw_run in Hrun.
-    destruct (bw_run_ops maxbuf frames (ops ++ [BFinish]) s) as [[rs0 st0] s0] eqn:Eo.
-    assert (Hdead : alive st0 = false \/ rs0 <> rs).
-    { destruct (list_eq_dec (fun a b : res => ltac:(decide equality; apply N.eq_dec)) rs0 rs) as [He|He];
-        [left|right; exact He].
-      subst rs0. destruct (bw_all_ok_complete _ s rs st0 s0 Eo Hall) as [_ [Hst _]].
-      rewrite Hst. unfold bw_ideal_state. rewrite map_app, ideal_state_app. cbn.
-      destruct (alive (ideal_state (map bop_spec ops) bw_init)) eqn:Ea; [reflexivity|exact Ea]. }
-    unfold bw_drop in Hrun.
-    destruct Hdead as [Hd|Hd].
-    - rewrite Hd in Hrun. inversion Hrun. subst rs0 s0.
-      exact (proj2 (proj2 (bw_all_ok_complete _ s rs st0 s' Eo Hall))).
-    - exfalso. apply Hd. destruct (alive st0).
-      + destruct (bw_try_finish frames st0 s0) as [[r1 st1] s1]. inversion Hrun. reflexivity.
-      + inversion Hrun. reflexivity.
+    intros st. unfold flush_next. destruct (Nat.eqb (staged st) 0) eqn:E; [|reflexivity].
+    apply Nat.eqb_eq. exact E.
+  Qed.
+
+  Lemma bw_drop_finished : forall st s,
+    alive st = false \/ (staged st = 0 /\ fin st = true) -> snd (bw_drop frames st s) = s.
+  Proof.
+    intros st s H. unfold bw_drop. destruct (alive st) eqn:Ea; [|reflexivity].
+    destruct H as [H|[Hs Hf]]; [discriminate|].
+    unfold bw_try_finish, bw_flush. rewrite Hs. cbn [Nat.eqb]. rewrite Hf. reflexivity.
+  Qed.
+
+  Theorem bw_finished_life_complete : forall ops o s rs s',
+    o = BTryFinish \/ o = BFinish ->
+    bw_run maxbuf frames (ops ++ [o]) s = (rs, s') -> Forall (fun r => r = Ok) rs ->
+    sbytes s' = sbytes s ++ bw_ideal_out (ops ++ [o]).
+  Proof.
+    intros ops o s rs s' Ho Hrun Hall. unfold bw_run in Hrun.
+    destruct (bw_run_ops maxbuf frames (ops ++ [o]) s) as [[rs0 st0] s0] eqn:Eo.
+    pose proof (bw_drop_finished st0 s0) as Hd.
+    destruct (bw_drop frames st0 s0) as [st1 s1]. cbn [snd] in Hd.
+    inversion Hrun. subst rs0 s1.
+    destruct (bw_all_ok_complete _ s rs st0 s0 Eo Hall) as [_ [Hst Hb]].
+    rewrite Hd; [exact Hb|].
+    rewrite Hst. unfold bw_ideal_state. rewrite map_app, ideal_state_app.
+    set (stx := ideal_state (map bop_spec ops) bw_init).
+    destruct Ho as [Ho|Ho]; subst o; cbn [map ideal_state bop_spec sp_next];
+      destruct (alive stx) eqn:Ea.
+    - right. unfold tf_next. cbn [staged fin]. split; [apply flush_next_staged|reflexivity].
+    - left. exact Ea.
+    - left. reflexivity.
+    - left. exact Ea.
   Qed.
 End BgzfProofs.
